@@ -152,9 +152,12 @@ func main() {
 	zones := c26lib.Zones(thorough)
 	instants := c26lib.Instants(thorough)
 	// instants whose names are also deviated ("only if" half); digit deviations for the first two of them
-	negInstants := map[string]int{"modern-subus": 2, "epoch+1s": 2, "rome-overlap-2nd": 1, "year-9999": 1}
+	negInstants := map[string]int{"modern-subus": 2, "epoch+1s": 1, "rome-overlap-2nd": 1}
+	if thorough {
+		negInstants = map[string]int{"modern-subus": 2, "epoch+1s": 2, "rome-overlap-2nd": 1, "year-9999": 1, "leap-day": 1, "unix-1000000000": 1}
+	}
 	r.Rule = "all (time.Local zone x record path format x path name x start instant): real Encode -> real Decode in mode F and mode R vs the whole-name reference parser; " +
-		"plus, for 4 of the instants, every single deviation of the name (suffix, child, prefix, field out of range, one directory down, extension, each of .-_ replaced by x; for 2 instants every digit removed/duplicated) " +
+		"plus, for 3 of the instants (6 thorough), every single deviation of the name (suffix, child, prefix, field out of range, one directory down, extension, each of .-_ replaced by x; for 1 instant (2 thorough) every digit removed/duplicated) " +
 		"and the name offered to mode F of every other path; distinct = (format, zone, mode, kind of case, outcome, ambiguity class)"
 	for _, p := range pathNames {
 		c26lib.CheckPathNameRule(p)
